@@ -17,6 +17,7 @@ import (
 	"fmt"
 	"os"
 	"regexp"
+	"runtime/debug"
 	"strings"
 	"time"
 
@@ -48,6 +49,7 @@ type Obs struct {
 	RunRes   string  `json:"run,omitempty"`
 	Rpanic   string  `json:"rpanic,omitempty"`
 	Rline    int     `json:"rline,omitempty"`
+	exit     bool    // the case left a runaway goroutine behind: the worker exits after reporting it
 }
 
 var consts = map[string]token.TokenType{
@@ -100,7 +102,19 @@ func table() {
 	json.NewEncoder(os.Stdout).Encode(o)
 }
 
-var lineRe = regexp.MustCompile(`:(\d+):(\d+)`)
+var siteRe = regexp.MustCompile(`github\.com/php-any/origami/([A-Za-z0-9_/]+)\.(\(\*?[A-Za-z0-9_]+\)\.)?([A-Za-z0-9_]+)\(`)
+
+// crashSite names the first frame of the interpreter/parser in a panic's stack: package.(Type).Method
+func crashSite(stack string) string {
+	if i := strings.Index(stack, "panic("); i >= 0 {
+		stack = stack[i:]
+	}
+	m := siteRe.FindStringSubmatch(stack)
+	if m == nil {
+		return "?"
+	}
+	return m[1] + "." + strings.Trim(m[2], "().*") + "." + m[3]
+}
 
 func lexOnly(src string, mode string) (o Obs) {
 	defer func() {
@@ -138,16 +152,20 @@ type parseRes struct {
 	rline  int
 }
 
-func parseAndRun(src, mode string, run bool) (res parseRes) {
+type parsed struct {
+	res  parseRes
+	prog *node.Program
+	vm   data.VM
+	vars []data.Variable
+	tmp  string
+}
+
+// parseOnly lexes + parses with the real parser; panics are reported, not propagated
+func parseOnly(src, mode string) (out parsed) {
 	defer func() {
 		if r := recover(); r != nil {
-			if res.state == "ok" {
-				res.run = "panic"
-				res.rpanic = fmt.Sprint(r)
-			} else {
-				res.state = "panic"
-				res.ppanic = fmt.Sprint(r)
-			}
+			out.res.state = "panic"
+			out.res.ppanic = fmt.Sprint(r) + " @ " + crashSite(string(debug.Stack()))
 		}
 	}()
 	vm, p := vrun.NewVM()
@@ -157,7 +175,7 @@ func parseAndRun(src, mode string, run bool) (res parseRes) {
 		// ParseFile is the only template-mode entry point: go through a temp file
 		f, err := os.CreateTemp("", "c01-*.php")
 		if err != nil {
-			res.state = "harness"
+			out.res.state = "harness"
 			return
 		}
 		f.WriteString(src)
@@ -168,50 +186,55 @@ func parseAndRun(src, mode string, run bool) (res parseRes) {
 		prog, acl = p.ParseString(src, "c01.zy")
 	}
 	if acl != nil {
-		res.state = "error"
-		res.perr = acl.AsString()
+		out.res.state = "error"
+		out.res.perr = acl.AsString()
 		if gf, ok := acl.(node.GetFrom); ok && gf.GetFrom() != nil {
 			l, c := gf.GetFrom().GetStartPosition()
-			res.pline, res.pcol = l+1, c+1
+			out.res.pline, out.res.pcol = l+1, c+1
 		} else if tv, ok := acl.(*data.ThrowValue); ok && tv.Error != nil && tv.Error.From != nil {
 			l, c := tv.Error.From.GetStartPosition()
-			res.pline, res.pcol = l+1, c+1
+			out.res.pline, out.res.pcol = l+1, c+1
 		}
 		return
 	}
-	res.state = "ok"
-	res.nstmt = len(prog.Statements)
-	if !run {
-		return
-	}
+	out.res.state = "ok"
+	out.res.nstmt = len(prog.Statements)
+	out.prog, out.vm, out.vars = prog, vm, p.GetVariables()
+	return
+}
+
+// runOnly executes an accepted program in-process; an internal panic is reported as run = "panic"
+func runOnly(pd parsed) (run string, rpanic string, rline int) {
+	defer func() {
+		if r := recover(); r != nil {
+			run, rpanic = "panic", fmt.Sprint(r)+" @ "+crashSite(string(debug.Stack()))
+		}
+	}()
 	old := data.WriteOutput
 	data.WriteOutput = func(string) {}
 	defer func() { data.WriteOutput = old }()
 	var thrown data.Control
-	vm.SetThrowControl(func(c data.Control) {
+	pd.vm.SetThrowControl(func(c data.Control) {
 		if thrown == nil {
 			thrown = c
 		}
 	})
-	ctx := vm.CreateContext(p.GetVariables())
-	_, ctl := prog.GetValue(ctx)
+	ctx := pd.vm.CreateContext(pd.vars)
+	_, ctl := pd.prog.GetValue(ctx)
 	if ctl == nil {
 		ctl = thrown
 	}
 	if ctl != nil {
 		if tv, ok := ctl.(*data.ThrowValue); ok {
-			res.run = "throw"
 			if tv.Error != nil && tv.Error.From != nil {
 				l, _ := tv.Error.From.GetStartPosition()
-				res.rline = l + 1
+				rline = l + 1
 			}
-		} else {
-			res.run = "control"
+			return "throw", "", rline
 		}
-		return
+		return "control", "", 0
 	}
-	res.run = "ok"
-	return
+	return "ok", "", 0
 }
 
 func observe(c Case) Obs {
@@ -228,13 +251,33 @@ func observe(c Case) Obs {
 	if budget <= 0 {
 		budget = 2 * time.Second
 	}
-	ch := make(chan parseRes, 1)
-	go func() { ch <- parseAndRun(src, c.Mode, c.Run) }()
+	ch := make(chan parsed, 1)
+	go func() { ch <- parseOnly(src, c.Mode) }()
+	var pd parsed
 	select {
-	case r := <-ch:
-		o.Parse, o.Perr, o.Pline, o.Pcol, o.Ppanic, o.Nstmt, o.RunRes, o.Rpanic, o.Rline = r.state, r.perr, r.pline, r.pcol, r.ppanic, r.nstmt, r.run, r.rpanic, r.rline
+	case pd = <-ch:
 	case <-time.After(budget):
 		o.Parse = "timeout"
+		o.exit = true
+		return o
+	}
+	r := pd.res
+	o.Parse, o.Perr, o.Pline, o.Pcol, o.Ppanic, o.Nstmt = r.state, r.perr, r.pline, r.pcol, r.ppanic, r.nstmt
+	if !c.Run || r.state != "ok" {
+		return o
+	}
+	type rr struct {
+		run, rpanic string
+		rline       int
+	}
+	rch := make(chan rr, 1)
+	go func() { a, b, l := runOnly(pd); rch <- rr{a, b, l} }()
+	select {
+	case x := <-rch:
+		o.RunRes, o.Rpanic, o.Rline = x.run, x.rpanic, x.rline
+	case <-time.After(budget):
+		o.RunRes = "timeout" // a mutated program may loop: not a front-end failure, but the goroutine is lost
+		o.exit = true
 	}
 	return o
 }
@@ -254,7 +297,10 @@ func main() {
 			w.Encode(Obs{LexPanic: "bad case: " + err.Error()})
 			return
 		}
-		fmt.Fprintf(os.Stderr, "case %s\n", c.Hex[:min(len(c.Hex), 40)])
-		w.Encode(observe(c))
+		o := observe(c)
+		w.Encode(o)
+		if o.exit {
+			os.Exit(3) // the driver restarts a worker for the remaining cases
+		}
 	})
 }
